@@ -709,7 +709,10 @@ class GenHistorySuite:
                     if abs(prev.index(b) - i) > 1:
                         return f"bell {b} moved more than one place between {prev} and {r}"
                 prev = r
-        return None
+        # rule-driven methods: the places named by the rule in force for each change are made (the rule-level reference
+        # of C04 decides which rule that is; it abstains when a Bob and a Single are pending together)
+        msg = self.oracle_C04(case, out)
+        return msg and "the places named by the rule for this change are not made: " + msg
 
 
 # ======================================================================= reference interpreter (C02, C04)
